@@ -73,16 +73,43 @@ def structures(tier, seed):
         add(op, "outer", "center", True, True, other="none", extra=0)
         add(op, "center", "left", True, True, order=(2, 0, 1))
     add("diff", "center", "left", True, True, canary="keep-flipped")
+
+    # several axes in one call (the steps are chained inside the library: what one step attaches must not leak through the next)
+    def add_multi(op, sx, sy, order, keep, inp):
+        axes = {"X": tuple(dict.fromkeys(("center",) + sx)), "Y": tuple(dict.fromkeys(("center",) + sy))}
+        xf, xt, yf, yt = f"x_{sx[0][0]}", f"x_{sx[1][0]}", f"y_{sy[0][0]}", f"y_{sy[1][0]}"
+        oc = {"scal": (), "aux_xf": (xf,), "aux_xt": (xt,), "aux_yf": (yf,), "aux_yt": (yt,), "aux_e": ("e0",), "a_ff": (yf, xf), "a_tf": (yf, xt),
+              "a_ft": (yt, xf), "a_tt": (xt, yt), "a_e": ("e0", yt, xt)}
+        d = dict(part="op", op=op, axes=axes, arr={"X": sx[0], "Y": sy[0]}, axis=list(order), to={"X": sx[1], "Y": sy[1]}, order=None, extra=1, gperiodic=False,
+                 gboundary=None, gfill=None, cboundary="extend", cfill=None, dshifts=None, coords=True, other_coords=oc,
+                 keep_coords=keep, input_coords=inp, canary=None, other="rich-2d", shifts=[["X", sx[0], sx[1]], ["Y", sy[0], sy[1]]])
+        d["sid"] = "multi;" + sid(d) + f";axis={'-'.join(order)}"
+        out.append(d)
+    pairs = [(("center", "left"), ("center", "right")), (("center", "right"), ("left", "center")), (("outer", "center"), ("center", "outer")),
+             (("center", "inner"), ("center", "left")), (("left", "center"), ("outer", "center")), (("center", "outer"), ("center", "inner"))]
+    for op in ("cumsum", "diff", "interp"):
+        for (sx, sy) in (pairs if (tier == "thorough" or op == "cumsum") else pairs[:2]):
+            for order in (("X", "Y"), ("Y", "X")):
+                for keep in (True, False, None):
+                    for inp in (True, False):
+                        add_multi(op, sx, sy, order, keep, inp)
     return out
+
+
+def shifts_of(s, layout):
+    """[(axis, abandoned dim, new dim)] of the call"""
+    sh = s.get("shifts") or [["X", s["arr"]["X"], s["to"]]]
+    return [(a, layout[a][pf], layout[a][pt]) for a, pf, pt in sh]
 
 
 def expected_coords(s, r):
     """{name: token} the result must carry, from the statement"""
     ds_coords = r["cdefs"]
     layout = r["layout"]
-    pf, pt = s["arr"]["X"], s["to"]
-    dfrom, dto = layout["X"][pf], layout["X"][pt]
-    out_dims = [dto if d == dfrom else d for d in r["da"].dims]
+    sh = shifts_of(s, layout)
+    ren = {df: dt for _, df, dt in sh}
+    dfrom, dto = [df for _, df, _ in sh], [dt for _, _, dt in sh]
+    out_dims = [ren.get(d, d) for d in r["da"].dims]
     keep = s["keep_coords"]
     if keep is None:
         keep = False  # documented default of the Grid methods
@@ -119,19 +146,20 @@ def run_structure(s):
         if canary == "keep-flipped":
             want, _, _, _ = expected_coords(dict(s, keep_coords=not s["keep_coords"]), r)
         got = {k: v for k, v in out.coords.items()}
-        oblige("coord:new-dimension-has-the-dataset-coordinate-of-the-target-position",
-               (dto in want) == (dto in got) and (dto not in got or got[dto].tok == ("ds", dto)),
-               detail=f"{dto}: want {'present' if dto in want else 'absent'}, got {got[dto].tok if dto in got else 'absent'}")
+        for dt in dto:
+            oblige("coord:new-dimension-has-the-dataset-coordinate-of-the-target-position" + (f":{dt}" if len(dto) > 1 else ""),
+                   (dt in want) == (dt in got) and (dt not in got or got[dt].tok == ("ds", dt)),
+                   detail=f"{dt}: want {'present' if dt in want else 'absent'}, got {got[dt].tok if dt in got else 'absent'}")
         for d in out_dims:
-            if d == dto:
+            if d in dto:
                 continue
             oblige(f"coord:untouched-dimension-coordinate-kept:{d}",
                    (d in want) == (d in got) and (d not in got or got[d].tok == ("ds", d)),
                    detail=f"{d}: want {'present' if d in want else 'absent'}, got {got[d].tok if d in got else 'absent'}")
-        stale = [k for k, v in got.items() if dfrom in v.dims or k == dfrom]
+        stale = [k for k, v in got.items() if set(dfrom) & set(v.dims) or k in dfrom]
         oblige("coord:none-on-the-abandoned-dimension", not stale, detail=str(stale))
         for name in r["cdefs"]:
-            if name in out_dims or name == dfrom:
+            if name in out_dims or name in dfrom:
                 continue
             oblige(f"coord:other-dataset-coordinate-attached-iff-fits-and-keep_coords:{name}",
                    (name in want) == (name in got) and (name not in got or got[name].tok == ("ds", name)),
@@ -145,6 +173,11 @@ def run_structure(s):
         oblige("coord:no-coordinate-from-elsewhere", not extra, detail=str(extra))
         oblige("name-kept", out.name == da.name, detail=f"{out.name!r} vs {da.name!r}")
         # values do not depend on the labels: the same value specification holds with and without input coords
+        if s["op"] == "cumsum" and len(dto) > 1:
+            # values of a cumsum over several axes are the contract of C09 (sequential part); here only the labelling
+            oblige("dims", tuple(out.dims) == tuple(out_dims), detail=f"{out.dims} vs {out_dims}")
+            oblige("frame:input-array-unchanged", not da.log and not ds.log)
+            return
         sp = C09.single_spec(s, r) if s["op"] == "cumsum" else C01.op_spec(s, r)
         oblige("dims", tuple(out.dims) == tuple(sp["dims"]), detail=f"{out.dims} vs {sp['dims']}")
         if set(out.dims) == set(sp["dims"]):
@@ -185,10 +218,11 @@ def replay(ob):
     wit = ob.get("witness") or {}
     s = dict(wit["structure"])
     s["axes"] = {a: tuple(v) for a, v in s["axes"].items()}
+    multi = bool(s.get("shifts"))
     s["order"] = tuple(s["order"]) if s.get("order") else None
     s["other_coords"] = {k: tuple(v) for k, v in (s.get("other_coords") or {}).items()}
     clause = ob["id"].rsplit("/", 1)[-1]
-    if clause.startswith("values") or clause == "dims":
+    if (clause.startswith("values") or clause == "dims") and not (multi and s["op"] == "cumsum"):
         specf = (lambda s_, r_: C09.single_spec(s_, r_)) if s["op"] == "cumsum" else (lambda s_, r_: C01.op_spec(s_, r_))
         return C01.replay_scenario(s, wit.get("model", {}), C01.scenario, specf, "op")
     m = {k: v for k, v in (wit.get("model") or {}).items() if k != "__funcs__"}
